@@ -340,7 +340,9 @@ def specs(tier):
 
     # the position range rests on every terminal staying inside the input; the one terminal that advances by a length
     # it does not read back from the match is ^"v": its contract and the regex assumptions behind it are re-proved here
-    return [*out, PStateInit(), ErrorContext(), ErrorContextSentinel(), ops.CIStringSpec(), c12.CIStrings()]
+    from . import c13_render
+
+    return [*out, PStateInit(), ErrorContext(), ErrorContextSentinel(), ops.CIStringSpec(), c12.CIStrings(), *c13_render.specs(tier)]
 
 
 def rendering_check() -> dict:
